@@ -75,6 +75,7 @@ type stat struct {
 	failedDriftStart bool           // a disruption reconcile failed in Queue.markDisrupted
 	mdFaults         []*world.Fault // fault plans aimed at markDisrupted's patches
 	panics           []string
+	pending          []pendingPanic
 }
 
 func (d *stat) step(format string, a ...any) {
@@ -135,6 +136,29 @@ func panicSite(stack string) string {
 	return s
 }
 
+type pendingPanic struct {
+	during, val, stack string
+}
+
+// workerPanic is called by the crash handler on a worker goroutine of a controller. Such a handler can run after
+// the reconcile that spawned the worker has returned (HandleCrash runs after wg.Done()), so it only records; the
+// driver goroutine turns the record into a violation at its next step boundary (flushPanics).
+func (d *stat) workerPanic(val any, stack string) {
+	d.mu.Lock()
+	d.pending = append(d.pending, pendingPanic{"a worker goroutine of the running controller", fmt.Sprint(val), stack})
+	d.mu.Unlock()
+}
+
+func (d *stat) flushPanics() {
+	d.mu.Lock()
+	todo := d.pending
+	d.pending = nil
+	d.mu.Unlock()
+	for _, p := range todo {
+		d.reportPanic(p.during, p.val, p.stack)
+	}
+}
+
 func (d *stat) reportPanic(during string, val any, stack string) {
 	site := panicSite(stack)
 	d.r.Inc("static_panics")
@@ -167,6 +191,7 @@ func (d *stat) guard(name string, f func()) {
 		}
 		d.reportPanic(name, val, stack)
 	}
+	d.flushPanics()
 }
 
 // ---- objects ----
@@ -1019,12 +1044,11 @@ func runStatic(r *mon.Report, tier string, idx, ord int, rng *rand.Rand) {
 	// In production a panic inside a workqueue.ParallelizeUntil worker is re-raised by HandleCrash and kills the
 	// process. Here it is recorded as a violation instead, so that the rest of the batch still runs. (Never
 	// restored: a worker's HandleCrash runs after its wg.Done(), i.e. possibly after the reconcile returned.)
-	defer time.Sleep(time.Millisecond) // let a straggling HandleCrash of the last step report into this case
 
 	yes := true
 	e := world.NewEnv(rng, test.OptionsFields{FeatureGates: test.FeatureGates{StaticCapacity: &yes}})
 	d := &stat{r: r, rng: rng, e: e, reported: map[string]bool{}, sig: map[string]bool{}, backlog: map[world.Request]bool{}, busy: map[string]bool{}}
-	setPanicSink(func(v any, stack string) { d.reportPanic("a worker goroutine of the running controller", v, stack) })
+	setPanicSink(d.workerPanic)
 	e.Apply(gen.NodeClass())
 	ccfg := gen.DefaultCatalogCfg()
 	ccfg.PUnavailable = 0.05
@@ -1157,6 +1181,8 @@ func runStatic(r *mon.Report, tier string, idx, ord int, rng *rand.Rand) {
 	}
 	d.hookOn.Store(false)
 	d.settle()
+	time.Sleep(time.Millisecond) // let a straggling HandleCrash of the last step hand over its record
+	d.flushPanics()
 
 	if os.Getenv("VERIF_C03_TRACE") != "" {
 		fmt.Printf("TRACE case %d shape %s pools %v\n%s\nFINAL %v\n", idx, shape, poolDesc, strings.Join(d.traceCopy(), "\n"), d.snapshot())
